@@ -637,7 +637,7 @@ class ExcelModel:
         }
         if live:
             live = set(dsp.get_sub_dsp_from_workflow(
-                live, graph=dsp.dmap
+                live, graph=dsp.dmap, check_inputs=False
             ).nodes)
             res = {k: v for k, v in res.items() if k not in live}
 
